@@ -115,8 +115,10 @@ def group_addr(cfg, k=1):
     return (47515 if cfg['family'] == 'ET' else 1793) + 4 * (k - 1), 4
 
 
-def run_modes(cfg, prior_name, seq):
-    """seq: list of (mode, power, soc).  Returns violations."""
+def run_modes(cfg, prior_name, seq, poller=None):
+    """seq: list of (mode, power, soc).  Returns violations.
+    poller: while the setter runs, another task on the same object ('same') or on a second object of the family ('other')
+    keeps issuing monitoring calls that read the eco-mode groups."""
     r = make_rig(cfg, fill=lambda a: 0)
     dev, inv = r.dev, r.inv
     pri = (PRIORS_V2 if cfg['v2'] else PRIORS_V1)[prior_name]
@@ -133,7 +135,53 @@ def run_modes(cfg, prior_name, seq):
     for (m, p, soc) in seq:
         if m not in modes:
             continue
-        res = r.call(inv.set_operation_mode, m, p, soc)
+        if poller:
+            import asyncio
+            if poller == 'other' and 'r2' not in locals():
+                from ..configs import make_rig as _mk
+                r2 = _mk(dict(cfg), fill=lambda a: 0, keep_world=True)
+                # the second inverter's group 1 holds a schedule of another type (peak shaving)
+                pri2 = (PRIORS_V2 if cfg['v2'] else PRIORS_V1).get('peak-typed') or list((PRIORS_V2 if cfg['v2'] else PRIORS_V1).values())[0]
+                r2.dev.rf.setbytes(a1, pri2)
+                r2.call(r2.inv.read_device_info)
+            target = inv if poller.startswith('same') else r2.inv
+
+            pos = int(poller.split('@')[1]) if '@' in poller else None
+            l0_ = len(dev.log)
+
+            async def both():
+                async def poll():
+                    if pos is not None:
+                        # ONE interfering read, issued when the inverter has seen `pos` requests of the setter: enumerating
+                        # pos enumerates every place of the setter's request sequence the read can fall into
+                        guard = 0
+                        while len(dev.log) - l0_ < pos and guard < 400:
+                            guard += 1
+                            await asyncio.sleep(0.0004)
+                        try:
+                            await target.read_setting('eco_mode_1')
+                        except Exception:  # noqa: BLE001
+                            pass
+                        return
+                    for _ in range(6):
+                        for call in (lambda: target.read_setting('eco_mode_1'), target.get_operation_mode):
+                            try:
+                                await call()
+                            except Exception:  # noqa: BLE001
+                                pass
+                if poller.startswith('same'):
+                    out = await asyncio.gather(inv.set_operation_mode(m, p, soc), poll(), return_exceptions=True)
+                    if isinstance(out[0], BaseException):
+                        raise out[0]
+                    return out[0]
+                return await inv.set_operation_mode(m, p, soc)
+            if poller == 'other':
+                # two loops cannot run at once in this harness: the other object polls right before the setter continues;
+                # the shared definitions are what carries state from one to the other
+                r2.call(target.read_setting, 'eco_mode_1')
+            res = r.call(both)
+        else:
+            res = r.call(inv.set_operation_mode, m, p, soc)
         n += 1
         if res[0] != 'ok':
             continue   # "after set_operation_mode succeeds": otherwise nothing to check
@@ -175,7 +223,8 @@ def run_modes(cfg, prior_name, seq):
 
 
 def job_e2e(j):
-    cfg, prior_name = j
+    cfg, prior_name = j[:2]
+    poller = j[2] if len(j) > 2 else None
     out = {}
     n = 0
     modes = list(OM)
@@ -188,12 +237,14 @@ def job_e2e(j):
     for seq in seqs:
         if prior_name == 'undecodable' and seq[0][0] not in (OM.ECO_CHARGE, OM.ECO_DISCHARGE):
             continue
-        vio, k = run_modes(cfg, prior_name, seq)
+        if poller and not (len(seq) == 1 and seq[0][0] in (OM.ECO_CHARGE, OM.ECO_DISCHARGE) and seq[0][1:] in ((55, 50), (9, 50))):
+            continue
+        vio, k = run_modes(cfg, prior_name, seq, poller)
         n += k
         for key, cause in vio:
-            kk = f"{key}/{cfg['name']}/prior:{prior_name}"
+            kk = f"{key}/{cfg['name']}/prior:{prior_name}" + (f"/while-polling:{poller.split('@')[0]}" if poller else '')
             out.setdefault(kk, []).append(dict(key=kk, clause=key.split('/')[0],
-                                               replay=dict(part='e2e', cfg=cfg, prior=prior_name,
+                                               replay=dict(part='e2e', cfg=cfg, prior=prior_name, poller=poller,
                                                            seq=[[m.name, p, s] for m, p, s in seq]),
                                                detail=dict(cause=cause, sequence=[[m.name, p, s] for m, p, s in seq])))
     res = []
@@ -319,6 +370,9 @@ def run(tier, seed, rep):
     for cfg in e2e_configs():
         for prior in (PRIORS_V2 if cfg['v2'] else PRIORS_V1):
             jobs.append((cfg, prior))
+            jobs.append((cfg, prior, 'same'))
+            for pos in range(0, 16):
+                jobs.append((cfg, prior, f'same@{pos}'))
     n_e2e = 0
     for n, res in pmap(job_e2e, jobs):
         n_e2e += n
@@ -379,5 +433,5 @@ def replay(r):
         n, res = limits_job(cfg)
         return dict(violations=[v['key'] for v in res])
     seq = [(getattr(OM, m), p, s) for m, p, s in r['seq']]
-    vio, n = run_modes(cfg, r['prior'], seq)
+    vio, n = run_modes(cfg, r['prior'], seq, r.get('poller'))
     return dict(violations=vio)
